@@ -290,6 +290,32 @@ fn skips_a_day_near(rf: &Ref, a: i128, b: i128, slack_days: i128) -> bool {
     z.rz.transitions_between(lo, hi).iter().any(|(t, info)| info.off as i64 - z.rz.lookup(*t - 1).off as i64 >= 86_400)
 }
 
+
+/// For a zoned reference: is there a wall-clock datetime `W` = (a date, the reference's time of
+/// day) that is later than the end point on the wall clock although its instant is not later
+/// (or the mirror image for a negative direction)? That is exactly when Temporal's day counting
+/// and the instant order disagree (only possible inside a fold).
+fn wall_and_instant_order_disagree(rf: &Ref, end: i128) -> bool {
+    let Ref::Zoned(z, t) = rf else { return false };
+    if end == *t {
+        return false;
+    }
+    let dir = (end - *t).signum();
+    let wall_end = rz::local_of(&z.rz, end).0;
+    let tod_r = rz::local_of(&z.rz, *t).0.rem_euclid(NS_PER_DAY);
+    let mut w = wall_end.div_euclid(NS_PER_DAY) * NS_PER_DAY + tod_r;
+    // the last wall-clock day point not beyond the end point (in the direction of travel) ...
+    if (w - wall_end) * dir > 0 {
+        w -= dir * NS_PER_DAY;
+    }
+    // ... and the next one, which is beyond it on the wall clock
+    let w2 = w + dir * NS_PER_DAY;
+    match rz::compatible(&z.rz, w2) {
+        Ok(i2) => (i2 - end) * dir <= 0,
+        Err(_) => false,
+    }
+}
+
 // --- round ----------------------------------------------------------------------------------------
 
 fn test_round(c: &Case, cx: &mut Cx) -> CaseResult {
@@ -410,9 +436,9 @@ fn test_round(c: &Case, cx: &mut Cx) -> CaseResult {
         Judge::Bad(why, dist, window) => {
             // stated tolerance: jiff evaluates the progress of calendar units in f64
             // (`Nudge::relative_calendar`: truncated + numer/denom*increment); strictly inside a
-            // band of (|k|/inc + 4) * 2^-50 of the window around a decision point either
+            // band of (|end - reference| + 4 windows) * 2^-50 around a decision point either
             // neighbour is accepted. Exact boundaries and exact ties are never tolerated.
-            let band = if u <= 3 && rf.has_reference() && dist != 0 { (window * ((k.abs() / inc as i128) + 4)) >> 50 } else { 0 };
+            let band = if u <= 3 && rf.has_reference() && dist != 0 { ((end - origin).abs() + 4 * window) >> 50 } else { 0 };
             // Temporal's bubbling (jiff's documented model) replaces e.g. `1y 31d` by `1y 1mo`
             // whenever r + 1y 31d has reached r + 1y 1mo; when that month step lands on a clamped
             // day of month (Mar 31 + 1mo = Apr 30) the bubbled result is *earlier* than the
@@ -445,13 +471,32 @@ fn test_round(c: &Case, cx: &mut Cx) -> CaseResult {
             } else {
                 false
             };
-            if u <= 3 && skips_a_day_near(&rf, origin, end, 40 + 3 * inc.clamp(0, 200_000) as i128 * [366, 31, 7, 1][u]) {
+            let later_fold_instant = |t: i128| -> bool {
+                match &rf {
+                    Ref::Zoned(z, _) => rz::compatible(&z.rz, rz::local_of(&z.rz, t).0).map_or(false, |c| c != t),
+                    _ => false,
+                }
+            };
+            if later_fold_instant(origin) || later_fold_instant(end) || later_fold_instant(x) {
+                // wall-clock arithmetic resolves a repeated civil time to its earlier instant, so
+                // reference + (anything that lands on that civil time) cannot be the later one:
+                // the neighbouring multiples computed by addition are off by the fold length
+                // (the same situation as C07's listed finding)
+                cx.class("round: reference, end point or result is the later instant of a fold (no verdict)");
+            } else if wall_and_instant_order_disagree(&rf, end) {
+                // Temporal's zoned difference (jiff's documented model) counts whole days on the
+                // wall clock. When the end point lies inside a fold so that `date(end) at the
+                // reference's time of day` is later on the wall clock but not later as an instant,
+                // the balanced span carries a time part of a whole day or more, and rounding its
+                // calendar part treats the end point as lying *before* that day boundary.
+                cx.class("round: wall-clock and instant order disagree at the end point (fold; Temporal semantics; no verdict)");
+            } else if u <= 3 && skips_a_day_near(&rf, origin, end, 40 + 3 * inc.clamp(0, 200_000) as i128 * [366, 31, 7, 1][u]) {
                 // day arithmetic is not monotone next to a gap of 24 hours or more (r - 2d can be
                 // later than r - 1d): the unit windows the statement speaks of do not exist
                 cx.class("round: next to a day-skipping transition (no verdict)");
             } else if odd_day {
                 cx.class("round: time rounded across a day whose length is not a multiple of the increment (Temporal semantics; no verdict)");
-            } else if u >= 2 && fr[2..].iter().all(|&v| v == 0) && (fr[0] != 0 || fr[1] != 0) && landed_day < ref_day {
+            } else if fr[2..].iter().all(|&v| v == 0) && (fr[0] != 0 || fr[1] != 0) && landed_day < ref_day {
                 cx.class("round: bubbled onto a clamped day of month (Temporal semantics; no verdict)");
             } else if dist.abs() <= band + if band > 0 { 1 } else { 0 } {
                 cx.class("round: inside the stated f64 band of a decision point (either neighbour accepted)");
@@ -497,7 +542,9 @@ fn judge(mode: Mode, sa: i128, x: i128, end: i128, lo: Option<i128>, hi: Option<
         return Judge::Ok;
     }
     // direction of "toward zero" on the number line
-    let dir = if sa != 0 { sa } else { (end - origin).signum() };
+    // (the direction in which the end point actually lies: next to a gap longer than a day the
+    // balanced span can have the opposite sign of the span as written)
+    let dir = if end != origin { (end - origin).signum() } else { sa };
     // normalise: work with d = end - x and the neighbour on that side
     let above = end > x;
     let (nb, window) = if above {
@@ -1024,11 +1071,11 @@ fn strat_case() -> BoxedStrategy<Case> {
 pub fn property() -> Property {
     Property {
         id: "C11",
-        level: "randomized exploration against independent reference arithmetic: law-level oracle for rounding with every option combination and reference kind, exact i128 oracle for uniform units, exact rational oracle for totals, end-point ordering for compare",
+        level: "exploration",
         rule: "round: the span is negative, or a calendar unit is smallest or largest, or rounding changed the span, or the options must be refused; total: the count has a fractional part or the unit is a calendar unit; compare: the two spans differ; duration/add: calendar units involved or both operands non-zero",
         assumptions: &[
             "reference + span is computed by the harness's models (walked calendar, RFC 8536/POSIX zone reader, i128): months with day clamping, days on the wall clock with 'compatible' resolution, then exact time",
-            "stated tolerance: for smallest >= day with a reference jiff evaluates progress in f64; an end point strictly inside (|k|/increment + 4) * 2^-50 of the unit window around a decision point may go to either neighbour; exact boundaries and exact ties are judged strictly; half-even ties accept either neighbour",
+            "stated tolerance: for smallest >= day with a reference jiff evaluates progress in f64; an end point strictly inside (|end - reference| + 4 unit windows) * 2^-50 of a decision point may go to either neighbour; exact boundaries and exact ties are judged strictly; half-even ties accept either neighbour",
             "total: relative error <= 2^-44 plus 1e-9 absolute; integer counts below 2^52 exactly",
             "errors are judged only when the options are invalid (must be Err) or nothing is anywhere near a limit (must be Ok)",
         ],
